@@ -657,7 +657,7 @@ main(int argc, char **argv) {
       for (int single = 0; single < 2; single++) {
         size_t L = v == 0 ? 64 : v == 1 ? 49 : 80; /* 4 blocks exactly / last block of 1 byte / 5 blocks */
         struct cfg c = {.dir = dir, .L = L, .L2 = dir == D_BOTH ? 33 : 0, .cblk = 0, .sblk = 0, .req_szx = 0, .mtu = 0, .single = single,
-                        .con = 1, .tkl = 2, .bound = T ? (v == 0 ? 3 : 2) : (v == 0 ? 2 : 1), .silent_from = -1, .allow_dup = 1, .two = v == 2 && single};
+                        .con = 1, .tkl = 2, .bound = T ? (v == 0 ? 3 : 2) : 2, .silent_from = -1, .allow_dup = 1, .two = v == 2 && single};
         add(c);
         if (v == 0) { /* NON transfers under loss: nothing may be delivered wrongly */
           c.con = 0;
